@@ -216,7 +216,22 @@ func ruleWIRE(w *World, r *Report, only ...string) {
 						if need > 0 {
 							nSinks++
 							k := key("INSLICE")
-							if lo := lenLowerBound(rc, par, b, fn, x); lo >= need {
+							lo := lenLowerBound(rc, par, b, fn, x)
+							// a private helper with one call site: what the caller has established for the argument
+							if lo < need {
+								if site := w.uniqueSite(fn); site != nil {
+									for pi, q := range fn.Params {
+										if q == par && pi < len(site.Common().Args) {
+											if ap, ok := stripConv(site.Common().Args[pi]).(*ssa.Parameter); ok {
+												if lo2 := lenLowerBound(rc, ap, site.Block(), site.Parent(), site); lo2 > lo {
+													lo = lo2
+												}
+											}
+										}
+									}
+								}
+							}
+							if lo >= need {
 								r.ok("WIRE", k, w.ipos(x), fmt.Sprintf("%s[...%d...] used where len(%s) >= %d is established", par.Name(), need, par.Name(), lo))
 							} else {
 								r.bad("WIRE", k, w.ipos(x), fmt.Sprintf("input bytes %s are sliced at constant offset %d but only len >= %d is established at this point: a file truncated below %d bytes panics", par.Name(), need, lo, need))
